@@ -236,6 +236,70 @@ def capacity_submodel(tier, seed, wd, acc, run_all, mkjob, notes):
     return out
 
 
+NEST_CFG = {
+    # the action through an alias as a defchordsv2 action (chord a+b), and directly on key a of a deflayer (control)
+    "chv2": "(defcfg process-unmapped-keys yes concurrent-tap-hold yes)\n(defsrc a b c d)\n(defalias t %s)\n"
+            "(deflayer l0 a b c d)\n(defchordsv2 (a b) @t 30 all-released ())\n",
+    "layer": "(defcfg process-unmapped-keys yes concurrent-tap-hold yes)\n(defsrc a b c d)\n(defalias t %s)\n"
+             "(deflayer l0 @t b c d)\n",
+}
+
+
+def nest_family(tier, seed, wd, acc, run_all, mkjob, notes, tlc_out):
+    """spec/NestV2.tla (printed in the Contracts TLC run): every action form with sub-actions x every position x
+    {_, use-defsrc}, depth 1 exhaustively and depth 2 (quick: a seeded sample), behind an alias as a defchordsv2 action
+    and, as the control, directly in a deflayer.  Outcome relation NvOk: rejected by the parser, or every history of the
+    stimulation family is processed to completion (a crash is recorded by `acc` like any other: a violation)."""
+    import cfggen, random
+    t0 = time.time()
+    cases, hists = [], []
+    for tag, dest in (("NESTCASE", cases), ("NESTHIST", hists)):
+        f = os.path.join(wd, "nest.%s.ndjson" % tag.lower())
+        extract_prints(tlc_out, tag, f)
+        dest += [json.loads(x) for x in open(f) if x.strip()]
+    if not cases or not hists:
+        raise ToolError("NestV2.tla printed no cases")
+    code = {k: cfgdesc.code(k) for k in "abcd"}
+    scripts = {}
+    for ctx in NEST_CFG:
+        scripts[ctx] = []
+        for h in sorted(hists, key=lambda h: (h["pre"], h["fin"], h["trig"])):
+            st = [[x[0], x[1] if x[0] == "t" else code[x[1]]] for x in h["steps"]
+                  if not (ctx == "layer" and x[0] != "t" and x[1] == "b")]
+            scripts[ctx].append(("nest-%s:%d:%s:%s" % (ctx, h["pre"], h["fin"], "trig" if h["trig"] else "notrig"), st))
+    d1 = [c for c in cases if c["depth"] == 1]
+    d2 = [c for c in cases if c["depth"] == 2]
+    d2.sort(key=lambda c: c["text"] + c["leaf"])
+    if tier == "quick":
+        d2 = random.Random(seed).sample(d2, min(len(d2), 120))
+    sel = d1 + d2
+    texts, meta = [], []
+    for c in sel:
+        for ctx in ("chv2", "layer"):
+            texts.append(NEST_CFG[ctx] % c["text"])
+            meta.append((ctx, c))
+    accd, ast = cfggen.accepted(texts, wd, "nestacc", chunk=1500)
+    jobs = []
+    n_acc = {"chv2": 0, "layer": 0}
+    for i, ((ctx, c), t, a) in enumerate(zip(meta, texts, accd)):
+        if a is None:
+            continue
+        n_acc[ctx] += 1
+        jobs.append(mkjob("n:%s:%d" % (ctx, i), t, scripts[ctx], "nest-%s:%s" % (ctx, c["text"])))
+    res = run_all(jobs, wd, "nest")
+    byid = {j["id"]: j for j in jobs}
+    acc.add(res, byid)
+    bad = sorted(set(byid[r["j"]]["label"] for r in res if r["r"] not in ("ok", "reject")))
+    out = {"forms_positions": len(d1) // 2, "leaves": 2, "cases_depth1": len(d1), "cases_depth2_enumerated": len([c for c in cases if c["depth"] == 2]),
+           "cases_depth2_run": len(d2), "histories_per_case": len(hists),
+           "chv2": {"texts": len(sel), "accepted": n_acc["chv2"], "rejected": len(sel) - n_acc["chv2"]},
+           "layer_control": {"texts": len(sel), "accepted": n_acc["layer"], "rejected": len(sel) - n_acc["layer"]},
+           "executions": len(res), "cases_violating_NvOk": bad[:20], "n_cases_violating_NvOk": len(bad), "wall_s": round(time.time() - t0, 1)}
+    log("[c02] nest family: %d cases; chv2 accepted %d, control accepted %d, %d executions, violating %d (%.1fs)" %
+        (len(sel), n_acc["chv2"], n_acc["layer"], len(res), len(bad), time.time() - t0))
+    return out
+
+
 def repaired_conformance(tier, wd, notes):
     """binding B for the L1 arm rewritten after fix 5f7376a (Repeat takes rpt_action before the call): TLC explores a
     small instance whose actions contain rpt-any inside the action it repeats (physically consistent environment of
@@ -353,7 +417,7 @@ def contracts(tier, seed, wd, acc, run_all, mkjob, notes):
         dest += [json.loads(x) for x in open(f) if x.strip()]
     if not rows or not decisions:
         raise ToolError("Contracts.tla printed no rows")
-    out = {"states": r["distinct"] or 0, "generated": r["generated"] or 0, "sites": len(rows),
+    out = {"tlc_out": r["out"], "states": r["distinct"] or 0, "generated": r["generated"] or 0, "sites": len(rows),
            "sites_holding": sum(1 for x in rows if x["holds"]),
            "sites_violated_in_table": {x["site"]: x["cx"][:6] for x in rows if not x["holds"]},
            "tuples_checked": sum(x["tuples"] for x in rows), "entries": len(set(d["id"] for d in decisions)),
